@@ -31,6 +31,7 @@ CIPHERS = (K.SymmetricKeyAlgorithm.TripleDES, K.SymmetricKeyAlgorithm.CAST5, K.S
 class PK:
     """recording stand-in for the public-key operation"""
     blocks = []
+    point = b''
 
 
 def _ct_encrypt(cls, encfn, *args):
@@ -42,10 +43,19 @@ def _ct_encrypt(cls, encfn, *args):
     else:
         ct.p = F.ECPoint.from_values(255, F.ECPointFormat.Native, bytes(range(32)))
         ct.c = bytearray(b'\x07' * 8)
+        PK.point = bytes(ct.p.__bytearray__() if hasattr(ct.p, '__bytearray__') else ct.p.to_mpibytes())
     return ct
 
 
 def _ct_decrypt(self, decfn, *args):
+    # the stand-in only "decrypts" the ciphertext object it made: whatever the library did to the packet in between (copying, export,
+    # import) must have kept every field of it
+    if isinstance(self, F.RSACipherText):
+        intact = int(self.me_mod_n) == 0x1234
+    else:
+        intact = bytes(self.c) == b'\x07' * 8 and bytes(self.p.__bytearray__() if hasattr(self.p, '__bytearray__') else self.p.to_mpibytes()) == PK.point
+    if not intact:
+        raise PGPDecryptionError('public-key ciphertext fields were altered on the way')
     return PK.blocks[-1]
 
 
@@ -296,6 +306,43 @@ def mixed_recipients(key_first: bool, by_key: bool, body: bytes) -> bool:
     return bytes(dec.message) == bytes(body)
 
 
-SANITY = ['pkesk_layout(0, 1, 2, 3)', 'pkesk_layout(5, 255, 255, 255)', 'pkesk_layout(8, 0, 0, 0)', 'skesk_layout(1, 1, 2, b"saltsalt", "p")', 'skesk_layout(5, 0, 255, bytes(8), "")',
+@ob('O3.7', 'a message from another producer that uses the older Symmetrically Encrypted Data packet (tag 9, no modification detection code) behind a public-key or a passphrase '
+            'session-key packet decrypts to exactly its literal content (nothing is cut off, nothing added)',
+    'recipient kind in {public key, passphrase}; cipher in {CAST5, AES128}; literal body = 0..2 symbolic octets followed by 0 / 30 concrete octets; cipher stand-in returns prefix and plaintext',
+    cond_timeout={'q': 280, 't': 900}, flags=('lazyhex',), partitions=[['by_key'], ['not by_key']])
+def foreign_tag9(by_key: bool, aes: bool, long_body: bool, body: bytes) -> bool:
+    """
+    pre: len(body) <= 2
+    post: _
+    """
+    from harness.c08 import split_one
+    alg = K.SymmetricKeyAlgorithm.AES128 if aes else K.SymmetricKeyAlgorithm.CAST5
+    bs = 16 if aes else 8
+    content = bytes(body) + (b'.' * 30 if long_body else b'')
+    lit = PGPMessage.new(content, compression=K.CompressionAlgorithm.Uncompressed, file=False, format='b')
+    inner = lit.__bytes__()
+    Cipher.reset()
+    Feed.reset([])
+    PK.blocks = []
+    sk = b'K' * 16
+    enc = ENCPUB.encrypt(lit, cipher=alg, sessionkey=sk) if by_key else lit.encrypt('pw', sessionkey=sk, cipher=alg)
+    wire = enc.__bytes__()
+    tag, hl, bl = split_one(wire)
+    esk = wire[:hl + bl]                                      # the session-key packet as PGPy wrote it
+    ct = bytes(range(1, bs + 3)) + bytes(len(inner))          # what the ciphertext octets are does not matter to the stand-in
+    foreign = esk + bytes([0xC9, len(ct)]) + ct
+    rx = PGPMessage.from_blob(foreign)
+    prefix = bytes(range(bs)) + bytes([bs - 2, bs - 1])
+    Cipher.adversarial = ([] if by_key else [bytes([int(alg)]) + sk]) + [prefix, inner]
+    try:
+        dec = ENCKEY.decrypt(rx) if by_key else rx.decrypt('pw')
+    except (PGPError, PGPDecryptionError):
+        return False
+    finally:
+        Cipher.adversarial = None
+    return bytes(dec.message) == content and dec.__bytes__() == inner
+
+
+SANITY = ['foreign_tag9(True, True, True, b"a")', 'foreign_tag9(False, False, False, b"")', 'foreign_tag9(True, False, False, b"xy")', 'foreign_tag9(False, True, True, b"z")'] + ['pkesk_layout(0, 1, 2, 3)', 'pkesk_layout(5, 255, 255, 255)', 'pkesk_layout(8, 0, 0, 0)', 'skesk_layout(1, 1, 2, b"saltsalt", "p")', 'skesk_layout(5, 0, 255, bytes(8), "")',
           'seipd_layout(8, bytes(range(8)), b"abc", 7)', 'seipd_layout(16, bytes(range(16)), b"", 0)', 'ecdh_params(0, 0, 0, 1, 2)', 'ecdh_params(3, 2, 2, 0, 3)', 'ecdh_params(1, 1, 1, 2, 1)',
           'mixed_recipients(True, True, b"a")', 'mixed_recipients(True, False, b"a")', 'mixed_recipients(False, True, b"ab")', 'mixed_recipients(False, False, b"")', 'composition(0, 0, b"hi", 0, False, "p")', 'composition(0, 2, b"", 1, True, "")', 'composition(1, 1, b"abc", 2, True, "")', 'composition(1, 0, b"x", 0, False, "")']
